@@ -1313,9 +1313,26 @@ def check_C11(tier, seed):
     with open(cfg, "w") as f:
         f.write("CONSTANTS\n  MaxPoint = %d\n  Values = {1, 2}\nINIT Init\nNEXT Next\n"
                 "INVARIANTS Inv StepCorrect PrintTransition\nCHECK_DEADLOCK FALSE\n" % maxpoint)
-    tlc = run_tlc("RangeMap.tla", cfg, workers=12, timeout=3000, tag="C11_rm", heap="12g")
+    covout = os.path.join(BUILD, "C11_rm_out.txt")
+    tlc = run_tlc("RangeMap.tla", cfg, workers=12, timeout=3000, tag="C11_rm", heap="12g",
+                  extra=("-coverage", "1"), keep_output=covout)
     if not tlc.ok:
         raise ToolError("TLC found an error in RangeMap.tla itself:\n" + str(tlc.error))
+    # vacuity guard: every arm of the three loop models must have been evaluated
+    import re as _re
+    never = []
+    total_expr = 0
+    with open(covout) as f:
+        for line in f:
+            m = _re.match(r"^\s*\|*line (\d+), col \d+ to line \d+, col \d+ of module RangeMapOps: (\d+)", line)
+            if m:
+                total_expr += 1
+                if m.group(2) == "0":
+                    never.append(int(m.group(1)))
+    if total_expr == 0:
+        raise ToolError("no coverage information for RangeMapOps in the TLC output")
+    if never:
+        raise ToolError("vacuous run: expressions of the range-map loops never evaluated (RangeMapOps.tla lines %s)" % sorted(set(never))[:10])
     trs = tlc.tagged.get("TR", [])
     ws = Workspace("C11")
     ws.add_crate("c11_rangemap", RM_MAIN % (REPO_, HARNESS))
@@ -1364,6 +1381,8 @@ def check_C11(tier, seed):
         "range_map_transitions_replayed": n_tr,
         "range_map_transitions_exact": exact,
         "range_map_transitions_same_meaning_other_split": drift,
+        "loop_model_expressions_covered": total_expr,
+        "loop_model_expressions_never_evaluated": len(never),
         "rule": "part 1: RangeMap.tla over universe 0..%d and two value atoms: every reachable "
                 "representation x every insert(a,b,v) / insert_ranges(M) / remove_ranges(M) (M any "
                 "sorted disjoint list of ranges over the universe); TLC checks well-formedness and "
